@@ -1,0 +1,184 @@
+//go:build verif
+
+package node
+
+import (
+	"sort"
+
+	hg "github.com/mosaicnetworks/babble/src/hashgraph"
+	"github.com/mosaicnetworks/babble/src/net"
+	_state "github.com/mosaicnetworks/babble/src/node/state"
+	"github.com/mosaicnetworks/babble/src/peers"
+	"github.com/sirupsen/logrus"
+)
+
+// This file only exists under the "verif" build tag. It holds hook variables
+// and thin export shims used by the deterministic simulation harness. With
+// every hook variable left nil the package behaves exactly as without the tag.
+
+// SimPick, when set, chooses the next gossip peer among the candidates the
+// random peer selector would choose from.
+var SimPick func(candidates []uint32) (uint32, bool)
+
+// SimYield, when set, is called at the points where a node operation has
+// released coreLock without touching the transport.
+var SimYield func(n *Node, site string)
+
+func simPick(chosen uint32, candidates []uint32) uint32 {
+	if SimPick == nil {
+		return chosen
+	}
+	if id, ok := SimPick(candidates); ok {
+		return id
+	}
+	return chosen
+}
+
+func simYield(n *Node, site string) {
+	if SimYield != nil {
+		SimYield(n, site)
+	}
+}
+
+// simRecordHeads re-enters recordHeads once per pending head, with a
+// one-entry map, in an order chosen by the simulator (hg.SimPermute).
+func simRecordHeads(c *core) (bool, error) {
+	if hg.SimPermute == nil || len(c.heads) <= 1 {
+		return false, nil
+	}
+	full := c.heads
+	ids := make([]uint32, 0, len(full))
+	for id := range full {
+		ids = append(ids, id)
+	}
+	sort.Slice(ids, func(i, j int) bool { return ids[i] < ids[j] })
+	perm := hg.SimPermute("recordHeads", len(ids))
+	defer func() { c.heads = full }()
+	for _, p := range perm {
+		id := ids[p]
+		single := map[uint32]*hg.Event{id: full[id]}
+		c.heads = single
+		err := c.recordHeads()
+		if _, still := single[id]; !still {
+			delete(full, id)
+		}
+		if err != nil {
+			return true, err
+		}
+	}
+	return true, nil
+}
+
+// simCanonicalise gives eventDiff's result a canonical pre-order (creator id,
+// index) before the (unstable) sort by topological index.
+func simCanonicalise(events []*hg.Event) {
+	if hg.SimPermute == nil {
+		return
+	}
+	sort.SliceStable(events, func(i, j int) bool {
+		_, _, _, ci := events[i].SimWireInfo()
+		_, _, _, cj := events[j].SimWireInfo()
+		if ci != cj {
+			return ci < cj
+		}
+		if events[i].Creator() != events[j].Creator() {
+			return events[i].Creator() < events[j].Creator()
+		}
+		return events[i].Index() < events[j].Index()
+	})
+}
+
+/*******************************************************************************
+Drivers
+*******************************************************************************/
+
+func (n *Node) SimGossip(peer *peers.Peer) error { return n.gossip(peer) }
+func (n *Node) SimPull(peer *peers.Peer) (map[uint32]int, error) {
+	return n.pull(peer)
+}
+func (n *Node) SimPush(peer *peers.Peer, known map[uint32]int) error { return n.push(peer, known) }
+func (n *Node) SimMonologue() error                                  { return n.monologue() }
+func (n *Node) SimCheckSuspend()                                     { n.checkSuspend() }
+func (n *Node) SimProcessRPC(rpc net.RPC)                            { n.processRPC(rpc) }
+func (n *Node) SimFastForward() error                                { return n.fastForward() }
+func (n *Node) SimJoin() error                                       { return n.join() }
+func (n *Node) SimAddTransaction(tx []byte)                          { n.addTransaction(tx) }
+func (n *Node) SimTransition(s _state.State)                         { n.transition(s) }
+func (n *Node) SimConf() interface{}                                 { return n.conf }
+func (n *Node) SimSetSyncLimit(l int)                                { n.conf.SyncLimit = l }
+func (n *Node) SimInitialUndetermined() int                          { return n.initialUndeterminedEvents }
+func (n *Node) SimLogger() *logrus.Entry                             { return n.logger }
+
+// SimSync calls the node-level sync (insert + process signature pool) under
+// coreLock, as processEagerSyncRequest and pull do.
+func (n *Node) SimSync(fromID uint32, events []hg.WireEvent) error {
+	n.coreLock.Lock()
+	defer n.coreLock.Unlock()
+	return n.sync(fromID, events)
+}
+
+/*******************************************************************************
+Core accessors
+*******************************************************************************/
+
+// SimCore gives read access to the node's core.
+type SimCore struct{ c *core }
+
+func (n *Node) SimCore() SimCore { return SimCore{n.core} }
+
+func (s SimCore) Head() string             { return s.c.head }
+func (s SimCore) Seq() int                 { return s.c.seq }
+func (s SimCore) AcceptedRound() int       { return s.c.acceptedRound }
+func (s SimCore) RemovedRound() int        { return s.c.removedRound }
+func (s SimCore) TargetRound() int         { return s.c.targetRound }
+func (s SimCore) LastPeerChangeRound() int { return s.c.lastPeerChangeRound }
+func (s SimCore) Busy() bool               { return s.c.busy() }
+func (s SimCore) Hashgraph() *hg.Hashgraph { return s.c.hg }
+func (s SimCore) KnownEvents() map[uint32]int {
+	return s.c.knownEvents()
+}
+func (s SimCore) Peers() *peers.PeerSet         { return s.c.peers }
+func (s SimCore) Validators() *peers.PeerSet    { return s.c.validators }
+func (s SimCore) GenesisPeers() *peers.PeerSet  { return s.c.genesisPeers }
+func (s SimCore) SelectorPeers() *peers.PeerSet { return s.c.peerSelector.getPeers() }
+func (s SimCore) PromiseCount() int             { return len(s.c.promises) }
+func (s SimCore) TransactionPool() [][]byte {
+	res := make([][]byte, len(s.c.transactionPool))
+	copy(res, s.c.transactionPool)
+	return res
+}
+func (s SimCore) InternalTransactionPool() []hg.InternalTransaction {
+	res := make([]hg.InternalTransaction, len(s.c.internalTransactionPool))
+	copy(res, s.c.internalTransactionPool)
+	return res
+}
+func (s SimCore) SelfBlockSignatures() []hg.BlockSignature {
+	res := []hg.BlockSignature{}
+	for _, bs := range s.c.selfBlockSignatures.Items() {
+		res = append(res, bs)
+	}
+	sort.Slice(res, func(i, j int) bool { return res[i].Key() < res[j].Key() })
+	return res
+}
+func (s SimCore) Heads() map[uint32]string {
+	res := map[uint32]string{}
+	for id, ev := range s.c.heads {
+		if ev == nil {
+			res[id] = ""
+		} else {
+			res[id] = ev.Hex()
+		}
+	}
+	return res
+}
+func (s SimCore) EventDiff(known map[uint32]int) ([]*hg.Event, error) { return s.c.eventDiff(known) }
+func (s SimCore) ToWire(events []*hg.Event) ([]hg.WireEvent, error)   { return s.c.toWire(events) }
+func (s SimCore) CoreSync(fromID uint32, wire []hg.WireEvent) error   { return s.c.sync(fromID, wire) }
+func (s SimCore) CoreFastForward(block *hg.Block, frame *hg.Frame) error {
+	return s.c.fastForward(block, frame)
+}
+func (s SimCore) ProcessSigPool() error { return s.c.processSigPool() }
+func (s SimCore) GetAnchorBlockWithFrame() (*hg.Block, *hg.Frame, error) {
+	return s.c.getAnchorBlockWithFrame()
+}
+func (s SimCore) SetAcceptedRound(r int) { s.c.acceptedRound = r }
